@@ -73,6 +73,13 @@ def main():
     for e, pids in engines.items():
         m["engines"].append({"name": e, "path": f"spec/{e}.tla", "serves_properties": pids,
                              "kind_free_text": "TLA+ specification checked by TLC + Rust conformance harness (harness/src/bin)"})
+    # engines that grow the specification beyond the listed properties (every rule EXT: DRIFT only); not checks
+    import glob
+    for f in sorted(glob.glob(os.path.join(ROOT, "checks", "EXT*.manifest.json"))):
+        e = json.load(open(f))
+        eid = os.path.basename(f).split(".")[0]
+        m["engines"].append({"name": f"{eid}:{e['engine']}", "path": f"spec/{e['engine']}.tla", "serves_properties": [],
+                             "kind_free_text": "specification growth beyond the listed properties (run: ./check %s); %s" % (eid, e.get("technique", "")[:300])})
     with open(os.path.join(ROOT, "MANIFEST.json"), "w") as f:
         json.dump(m, f, indent=1)
     try:
